@@ -433,7 +433,7 @@ func (g *gen) step(prop string) []CStep {
 			}
 		}
 		if r.Chance(0.1) {
-			return []CStep{CStep{Op: "eth", A: r.Intn(5), B: r.Intn(8), N: r.Intn(11)}}
+			return []CStep{CStep{Op: "eth", A: r.Intn(5), B: r.Intn(8), N: r.Intn(16)}}
 		}
 		switch r.Weighted([]int{8, 8, 2, 4, 1, 1}) {
 		case 0:
@@ -510,7 +510,7 @@ func (g *gen) step(prop string) []CStep {
 			}
 			switch r.Intn(12) {
 			case 7:
-				return []CStep{CStep{Op: "eth", A: r.Intn(5), B: r.Intn(8), N: r.Intn(11)}}
+				return []CStep{CStep{Op: "eth", A: r.Intn(5), B: r.Intn(8), N: r.Intn(16)}}
 			case 0:
 				return []CStep{g.call()}
 			case 1:
